@@ -295,7 +295,7 @@ def run(chk):
         did_enc = did_comp = False
         for _ in range(n):
             opts = []
-            if not did_enc and not did_comp:
+            if not did_enc:
                 opts.append('enc')
             if not did_comp:
                 opts.append('comp')
